@@ -26,6 +26,10 @@ def queries_for(pid, tier, seed=0):
     if pid not in REG:
         return []
     qs = REG[pid](tier, seed)
+    if tier == "thorough":
+        for q in qs:
+            if len(q.backends) >= 2:
+                q.agree = 2          # two back ends must reach the same verdict on every condition
     if pid in OWN_SAFETY:
         for q in qs:
             q.safety_for = tuple(q.safety_for) + (pid,)
